@@ -236,9 +236,11 @@ def gen_partial_reader(rng: random.Random) -> Dict[str, Any]:
     other = rng.choice(["PandasDataFrame", "PythonDictFramework"])
     groups: List[Dict[str, Any]] = [
         {"name": "R0", "kind": "root", "cfw": "PyArrowTable", "cols": {"a": [rng.randrange(0, 9) for _ in range(n)], "b": [rng.randrange(0, 9) for _ in range(n)]}},
-        {"name": "S0", "kind": "derived", "cfw": "PyArrowTable", "features": {"s0": {"inputs": ["a"], "c0": 0, "coefs": [1]}}},
+        # S0 is slow: a root table that reaches the store only through S0's upload arrives after the transform step looked for it
+        {"name": "S0", "kind": "derived", "cfw": "PyArrowTable", "features": {"s0": {"inputs": ["a"], "c0": 0, "coefs": [1]}}, "delay_ms": 400},
         {"name": "T", "kind": "derived", "cfw": other, "features": {"t": {"inputs": ["b"], "c0": 2, "coefs": [1]}}}]
-    return {"groups": groups, "request": rng.sample(["s0", "t"], 2), "mp_runs": 4}
+    # request order [s0, t]: the root's feature set then starts with the column its own framework reads
+    return {"groups": groups, "request": ["s0", "t"] if rng.random() < 0.8 else ["t", "s0"], "mp_runs": 3}
 
 
 def gen_option_groups(rng: random.Random) -> Dict[str, Any]:
